@@ -5,7 +5,7 @@
      scr t        : (tw + bw + lw + #tabs + widest row) * (th + max (bh, #rows)) + 1   — the screen measure incl. scrollback
      Inv09 t      : the C09 invariant (every state reachable without a text-area resize: Props/C09.v) *)
 From Coq Require Import ZArith NArith List Bool Lia.
-From IE Require Import Model.TermCore Model.AnsiTok Model.Cost Model.Alloc Proofs.TermProofs Proofs.CostProofs Proofs.AllocProofs Proofs.TicksProofs Proofs.MacroProofs Proofs.SixelCostProofs Proofs.LoadCostProofs Run.RunC03.
+From IE Require Import Model.TermCore Model.AnsiTok Model.Cost Model.Alloc Proofs.TermProofs Proofs.CostProofs Proofs.AllocProofs Proofs.TicksProofs Proofs.MacroProofs Proofs.SixelCostProofs Proofs.LoadCostProofs Run.RunC03 Gen.MacroLimit.
 From IE Require Model.Sixel Model.Font Model.SixelCost Lib.C05Lib Model.Attr Model.C05Buf Model.C05Bin Model.C05XBin Model.C05Idf Model.C05Tundra Model.C02Loaders Model.LoadCost.
 Import ListNotations.
 Local Open Scope Z_scope.
@@ -60,8 +60,9 @@ Proof. exact rep_refuted_l. Qed.
 (* known class hex-macro repeat: `!3000;41;` *)
 Theorem hexmacro_refuted : exists s, zlen s < 64 /\ 300 * zlen s < snd (hex_macro_t s HFirst false [] 0 [] 0).
 Proof. exact hexmacro_refuted_l. Qed.
-(* known class macro recursion: a macro that invokes itself replays without end, for every nesting budget *)
-Theorem macro_recursion_refuted : forall fuel, macro_chars fuel [(1, [27; 91; 49; 42; 122])] 1 = None.
+(* the former known class macro recursion (repaired by 2513579, MAX_MACRO_NESTING): in the code BEFORE the nesting limit (macro_chars_nolimit,
+   Model/Cost.v) a macro that invokes itself replays without end, whatever nesting depth is explored.  After the fix: macro_recursion_bounded below *)
+Theorem macro_recursion_before_fix_refuted : forall fuel, macro_chars_nolimit fuel [(1, [27; 91; 49; 42; 122])] 1 = None.
 Proof. exact macro_self_diverges. Qed.
 (* known class sixel repeat: `!n` calls parse_sixel_data n times *)
 Theorem sixel_repeat_linear : forall n s ch k, (exists s', fst (repeat_data_t n s ch k) = Sixel.Ok s') -> snd (repeat_data_t n s ch k) = k + Z.of_nat n.
@@ -154,10 +155,21 @@ Theorem hexmacro_bound_cond : forall s B, ~ KnownC03_hexrep s B -> snd (hex_macr
 Proof. exact hexmacro_bound_known_l. Qed.
 Theorem hexmacro_linear : forall s, hex_reps s HFirst false 0 = 0 -> snd (hex_macro_t s HFirst false [] 0 [] 0) <= zlen s.
 Proof. exact hexmacro_linear_l. Qed.
-(* invoke_macro_by_id: when the nesting is shallower than the budget (macro_chars = Some n; recursion is the known class: macro_recursion_refuted),
+(* invoke_macro_by_id, EVERY macro table (recursive or not; the counter of the code bounds the nesting, fuel = MAX_MACRO_NESTING - counter):
    the characters replayed are at most B (1 + c + ... + c^(fuel-1)) for bodies of at most B characters holding at most c invocations each *)
-Theorem macro_replay_bound : forall fuel ms id B c n, 0 <= B -> 0 <= c -> macros_ok ms B c -> macro_chars fuel ms id = Some n -> 0 <= n <= B * geom c fuel.
+Theorem macro_replay_bound : forall fuel ms id B c, 0 <= B -> 0 <= c -> macros_ok ms B c -> 0 <= fst (macro_chars fuel ms id) <= B * geom c fuel.
 Proof. exact macro_replay_bound_l. Qed.
+(* ... in particular for the limit of the code and the executable B and c of a table: no hypothesis at all *)
+Theorem macro_replay_total : forall ms id,
+  0 <= fst (macro_chars MAX_MACRO_NESTING ms id) <= macros_maxlen ms * geom (macros_maxinv ms) MAX_MACRO_NESTING.
+Proof. exact (macro_replay_total_l MAX_MACRO_NESTING). Qed.
+(* the former known class: a macro whose invocations are all of itself replays at most ONE body per nesting level (the first invocation inside the
+   body reaches the limit and the error abandons the whole chain): limit x body length, whatever the number of invocations in the body *)
+Theorem macro_recursion_bounded : forall body n, (forall i, In i (find_invokes body) -> i = 1) -> fst (macro_chars n [(1, body)] 1) <= Z.of_nat n * zlen body.
+Proof. exact macro_self_bound_l. Qed.
+(* the limit only cuts: what the code before the fix replayed to the end within [fuel] nesting levels is replayed exactly the same *)
+Theorem macro_limit_conservative : forall fuel ms id n, macro_chars_nolimit fuel ms id = Some n -> macro_chars fuel ms id = (n, false).
+Proof. exact macro_chars_conservative_l. Qed.
 Theorem macro_invokes_half : forall body, 2 * zlen (find_invokes body) <= zlen body.
 Proof. exact find_invokes_half. Qed.
 Theorem macro_table_ok : forall ms, macros_ok ms (macros_maxlen ms) (macros_maxinv ms).
@@ -222,7 +234,13 @@ Proof. vm_compute. reflexivity. Qed.
 (* A CSI 3000 b: 3000 print_char calls (known class when the count exceeds tw*th = 2000) *)
 Example rep_linear_example : nth 1 (run_seq 80 25 [65] [27; 91; 51; 48; 48; 48; 98]) 0 = 3006.
 Proof. vm_compute. reflexivity. Qed.
-(* ESC P 1;0;1!z 1B5B312A7A ESC \ CSI 1*z : the character-level model diverges (ODiverge = -2) *)
+(* ESC P 1;0;1!z 1B5B312A7A ESC \ CSI 1*z : the character-level model ends in the error value MacroNestingTooDeep (class 1), nothing allocated;
+   the abstraction counts 16 levels x 5 characters and reports the abandoned chain *)
 Example macro_recursion_model :
-  run_seq 80 25 [] [27; 80; 49; 59; 48; 59; 49; 33; 122; 49; 66; 53; 66; 51; 49; 50; 65; 55; 65; 27; 92; 27; 91; 49; 42; 122] = [-2].
+  firstn 1 (run_seq 80 25 [] [27; 80; 49; 59; 48; 59; 49; 33; 122; 49; 66; 53; 66; 51; 49; 50; 65; 55; 65; 27; 92; 27; 91; 49; 42; 122]) = [1] /\
+  macro_chars MAX_MACRO_NESTING [(1, [27; 91; 49; 42; 122])] 1 = (80, true).
+Proof. vm_compute. split; reflexivity. Qed.
+(* fan-out does not multiply: a body with four invocations of itself still replays one body per level (4^16 without the abandon) *)
+Example macro_recursion_fanout :
+  macro_chars MAX_MACRO_NESTING [(1, [27; 91; 49; 42; 122; 27; 91; 49; 42; 122; 27; 91; 49; 42; 122; 27; 91; 49; 42; 122])] 1 = (320, true).
 Proof. vm_compute. reflexivity. Qed.
